@@ -361,6 +361,12 @@ func (h *Host) SetParams(p *ParamsOp) {
 	if p.ComplaintNs > 0 {
 		cur.ComplaintRetrospect = time.Duration(p.ComplaintNs)
 	}
+	if p.MinDeposit > 0 {
+		cur.MinDeposit = sdk.NewCoins(sdk.NewCoin("stake", sdk.NewInt(p.MinDeposit)))
+	}
+	if p.MinDepositMultiple > 0 {
+		cur.MinDepositMultiple = p.MinDepositMultiple
+	}
 	must(cur.Validate())
 	k.SetParams(ctx, cur)
 }
